@@ -62,6 +62,8 @@ def load_toplevel(path):
         m = re.search(r'\n      "name": "([^"]*)"', head)
         if k and k.group(1) == "NamespaceDecl" and m and m.group(1) in SKIP_NS:
             continue
+        if s.find("anifold", a, b) < 0:
+            continue                      # C library / compiler builtins: nothing of the binding in there
         keep.append(json.loads(s[a:b].rstrip().rstrip(",")))
     return keep
 
